@@ -43,6 +43,17 @@ def fail (a : Acc) (prop what : String) : IO Acc := do
   if a.fails < 40 then IO.println s!"PROPFAIL[{prop}] {what}"
   pure { a with fails := a.fails + 1 }
 
+/-- does the spectrum contain two levels that differ by less than the library's term-merging tolerance (1e-8, with slack)
+without being numerically equal?  (finding F16: the tolerance comparator of `TermList` is then not a strict weak order) -/
+def nearDegenerate (s : Sys) : Bool :=
+  (List.range s.E.size).any fun i => (List.range i).any fun j =>
+    let d := Float.abs (s.E[i]! - s.E[j]!)
+    d > 1.0e-12 * (1.0 + Float.abs (s.E[i]!)) && d < 3.0e-8
+
+/-- a failed check of a two-particle quantity; on spectra with near-degenerate levels it is attributed to the term merging -/
+def failChi (a : Acc) (prop what : String) : IO Acc :=
+  if nearDegenerate a.s then fail a prop ("near-degenerate levels (term merging): " ++ what) else fail a prop what
+
 def getRot (a : Acc) (i : Nat) : Acc × Mat :=
   match a.cRot[i]? with
   | some (some m) => (a, m)
